@@ -108,3 +108,12 @@ Theorem C02_restart_over_stale_tmp : forall F v rc s fp rest cs c,
   forall d k, w_fs (rs_w r) (PData d false k) = s (PData d false k).
 Proof. exact restart_over_stale_tmp. Qed.
 Print Assumptions C02_restart_over_stale_tmp.
+
+(* ---- T17: the sources this property rests on keep no state outside the objects the model has (no static locals
+   or mutable globals in C, no class-level / module-level containers, `global` rebinding or cache decorators in
+   Python): the list of such sites, regenerated from the sources on every run, is empty *)
+From Coq Require Import String List.
+From DRF Require Import Gen.StateSites Proofs.StateSitesProofs.
+Theorem C02_no_state_outside_the_modelled_objects : state_sites_c_library = @nil string /\ state_sites_extension = @nil string /\ state_sites_rf_python = @nil string /\ state_sites_listing = @nil string.
+Proof. repeat split; first [exact no_state_outside_objects_c_library | exact no_state_outside_objects_extension | exact no_state_outside_objects_rf_python | exact no_state_outside_objects_listing]. Qed.
+Print Assumptions C02_no_state_outside_the_modelled_objects.
